@@ -266,3 +266,50 @@ func TestFiveYearBound(t *testing.T) {
 		}
 	}
 }
+
+// TestLateLeapYear: starts in the last weeks of leap years from 2040 on, in zones with daylight-saving rules (east and
+// west of Greenwich, northern and southern) and sparse schedules whose next activation lies beyond the next real
+// offset change. Beyond its tables (2037) the time package evaluates the zone's rule string, and for the whole last
+// UTC day of such a year it reports a period end that has already passed - whatever a search does about that day,
+// what it finds afterwards must still be the earliest matching second on the zone's wall clock.
+func TestLateLeapYear(t *testing.T) {
+	sec := vk.Sec("LateLeapYear")
+	idx := 0
+	zones := []string{"Europe/Paris", "Europe/Helsinki", "Pacific/Auckland", "America/New_York", "Australia/Sydney", "America/Santiago", "Asia/Tokyo"}
+	specs := []string{"0 12 1 7 *", "0 0 1 1 *", "30 2 29 3 *", "15 3 31 10 *", "0 12 * * *", "0 1 1 4 *"}
+	for zi0, zn := range zones {
+		zi := zone(zn)
+		for si, text := range specs {
+			ks, err, pv := safeParse(optStandard, text)
+			rs, rerr := refcron.Parse(text, optStandard.ref)
+			if pv != nil || err != nil || rerr != nil {
+				t.Fatalf("C04 harness error: %q: panic=%v kit=%v ref=%v", text, pv, err, rerr)
+			}
+			for yi, year := range []int{2040, 2044, 2068, 2096} {
+				for di, start := range []time.Time{
+					time.Date(year, 11, 15, 10, 0, 0, 0, zi.loc), time.Date(year, 12, 30, 23, 0, 0, 0, zi.loc),
+					time.Date(year, 12, 31, 0, 0, 0, 0, time.UTC).In(zi.loc), time.Date(year, 12, 31, 12, 0, 0, 1, zi.loc), time.Date(year, 12, 31, 23, 59, 59, 0, zi.loc),
+				} {
+					idx++
+					// quick: a rotating quarter of the grid (every zone, spec, year and start still occurs)
+					if !vk.Thorough() && (zi0+si+yi+di)%4 != 0 {
+						continue
+					}
+					if !vk.Mine(idx) {
+						continue
+					}
+					c := func() string {
+						return fmt.Sprintf("{parser=standard expr=%q schedule-zone=%s start=%s}", text, zn, fmtT(start))
+					}
+					got := guardedNext(ks, start, c)
+					msg, _ := judgeNext(rs, zi.loc, start, got)
+					if msg != "" {
+						t.Fatalf("C04 earliest-matching-second violated: %s\ncase: %s", msg, c())
+					}
+					sec.Case(true, vk.FP(c()), "late-leap-year."+zn)
+					sec.Sample(func() any { return c() + " -> " + fmtT(got) })
+				}
+			}
+		}
+	}
+}
